@@ -1,0 +1,14 @@
+//go:build verif
+
+package generator
+
+import "github.com/EliCDavis/polyform/generator/graph"
+
+// VerifGraphInstance gives the deterministic simulation harness access to the
+// graph instance behind an App, so that it can edit the graph with the same
+// calls the edit server makes and save it with the real App.Schema().
+// Compiled in with -tags verif only.
+func (a *App) VerifGraphInstance() *graph.Instance {
+	a.initGraphInstance()
+	return a.graphInstance
+}
